@@ -693,6 +693,105 @@ def register_cut_tree(R):
           notes="enter form: the user callback is an uninterpreted function of (node, incoming value); leave form: arbitrary results recorded in ghost "
                 "observation arrays; to_subtree is used through its proved contract; the input tree is frozen")
 
+    # ------------------------------------------------------------------ the nested closures on their own (their clauses are POSTCONDITIONS here)
+    from contracts.C09 import node_obj
+
+    def cb_setup(form, with_parent):
+        def f(S):
+            t = K["raw_tree"](S)
+            n = node_obj(S, t)
+            rem = S.plist("int", name="removals")
+            log = []
+
+            def user(E, args, kwargs):
+                if form == "enter":
+                    x, inc = to_z3(args[0].fields["idx"], "int"), to_z3(args[1], "oref")
+                    r = (Sym(UE_VAL(x, inc), "oref"), Sym(UE_FLAG(x, inc), "bool"))
+                else:
+                    r = (fresh("oref", "leave_value"), fresh("bool", "leave_removal"))
+                log.append((list(args), dict(kwargs), r))
+                return r
+
+            d = dict(n=n, __ghost__=dict(log=log))
+            if form == "enter":
+                d["parent"] = (fresh("oref", "pv"), S.bool("pr")) if with_parent else None
+                d["__closure__"] = dict(removals=rem, enter=S.callback("enter", user))
+            else:
+                ch = S.plist("oref", name="children")
+                ch.frozen = True
+                d["children"] = ch
+                d["__closure__"] = dict(removals=rem, leave=S.callback("leave", user))
+            d["removals"] = rem  # visible to the clauses (old(removals) = the list at entry)
+            return d
+
+        return f
+
+    def cb_in_range(E, v, o):
+        i = to_z3(v["n"].fields["idx"], "int")
+        return z3.And(i >= 0, i < nof(v["n"].fields["attach"]))
+
+    def cb_flag_and_id(E, v, o, form):
+        res = v["result"]
+        node = o["n"]
+        me = sel(col(node.fields["attach"], "id").arr, to_z3(node.fields["idx"], "int"))
+        log = E.spec_extra["log"]
+        if form == "enter":
+            if not (isinstance(res, tuple) and len(res) == 2):
+                return None, me, log
+            return to_z3(E.truth(res[1]), "bool"), me, log
+        return (to_z3(E.truth(log[0][2][1]), "bool") if len(log) == 1 else None), me, log
+
+    def cb_post(form, which):
+        def f(E, v, o):
+            res = v["result"]
+            flag, me, log = cb_flag_and_id(E, v, o, form)
+            if flag is None:
+                return False
+            if which == "listed":  # the node's id is appended to `removals` iff the returned / reported flag is set; nothing else changes
+                A1, l1 = list_view(v["removals"])
+                A0, l0 = list_view(o["removals"])
+                j = z3.Int(fresh_name("j"))
+                return z3.And(v["removals"].uid == o["removals"].uid, l1 == l0 + z3.If(flag, 1, 0), z3.Implies(flag, sel(A1, l0) == me),
+                              z3.ForAll([j], z3.Implies(z3.And(j >= 0, j < l0), sel(A1, j) == sel(A0, j))))
+            node = o["n"]
+            if form == "enter":
+                par = o["parent"]
+                below = z3.BoolVal(False) if par is None else to_z3(par[1], "bool")
+                if len(log) == 0:  # the callback was not consulted: only right below a removed parent, whose pair is passed on
+                    if par is None:
+                        return False
+                    return z3.And(below, to_z3(res[0], "oref") == to_z3(par[0], "oref"), flag)
+                if len(log) != 1:
+                    return False
+                args, kwargs, r = log[0]
+                ok = len(args) == 2 and not kwargs and args[0] is v["n"]
+                inc_ok = (args[1] is None) if par is None else (args[1] is not None and to_z3(args[1], "oref") == to_z3(par[0], "oref"))
+                return z3.And(z3.Not(below), z3.BoolVal(ok) if isinstance(ok, bool) else ok, z3.BoolVal(inc_ok) if isinstance(inc_ok, bool) else inc_ok,
+                              to_z3(res[0], "oref") == r[0].z, flag == r[1].z)
+            if len(log) != 1:
+                return False
+            args, kwargs, r = log[0]
+            if not (len(args) == 2 and not kwargs and args[0] is v["n"]) or isinstance(res, tuple):
+                return False
+            (A1, l1), (A0, l0) = list_view(args[1]), list_view(o["children"])  # the child values in order (the very list or an equal one)
+            j = z3.Int(fresh_name("j"))
+            return z3.And(l1 == l0, z3.ForAll([j], z3.Implies(z3.And(j >= 0, j < l0), sel(A1, j) == sel(A0, j))), to_z3(res, "oref") == r[0].z)
+
+        return f
+
+    R.add(f"{TU}:cut_tree.<locals>._enter", prop="C06",
+          variants={"start node (no parent pair)": cb_setup("enter", False), "below a parent": cb_setup("enter", True)},
+          requires=[("handle-in-range", cb_in_range)],
+          ensures=[("below-a-removed-parent-its-pair-is-passed-on-unconsulted-else-the-callback-decides-on-the-parents-value", cb_post("enter", "value")),
+                   ("node-id-appended-to-removals-iff-the-returned-flag-is-set", cb_post("enter", "listed"))],
+          notes="the wrapper cut_tree hands to Tree.traverse in the enter form; `enter` is an uninterpreted function of (node, incoming value)")
+    R.add(f"{TU}:cut_tree.<locals>._leave", prop="C06",
+          setup=cb_setup("leave", False),
+          requires=[("handle-in-range", cb_in_range)],
+          ensures=[("callback-consulted-once-with-this-node-and-the-child-values-in-order-and-its-value-returned", cb_post("leave", "value")),
+                   ("node-id-appended-to-removals-iff-the-callback-flags-it", cb_post("leave", "listed"))],
+          notes="the wrapper cut_tree hands to Tree.traverse in the leave form; `leave` returns arbitrary (value, flag) pairs")
+
 
 _reg6b = register
 
